@@ -47,6 +47,10 @@ structure HS where
   margin : Rat := BIG
   exact : Bool := true
   fuelOut : Bool := false
+  /-- model-side dynamic check (see `mergeLeftLoop`): a heap handed back a constraint that does not belong
+      to the block / is internal, or `findMinLM` one of another block.  Never observed; a run that sets
+      it is reported by the driver like a run that exhausts fuel. -/
+  corrupt : Bool := false
   nInternal : Nat := 0       -- internal constraints dropped at a heap root
   nStale : Nat := 0          -- out-of-date constraints popped and re-inserted
   nMergeL : Nat := 0         -- mergeLeft merges, r survives
@@ -112,6 +116,7 @@ def HS.noteCmp (hs : HS) (x : Rat) : HS :=
   if x = 0 && hs.exact then hs else hs.note x
 
 def HS.out (hs : HS) : HS := { hs with fuelOut := true }
+def HS.bad (hs : HS) : HS := { hs with corrupt := true }
 
 /-- smallest distance between two finite keys among `cs` (0 only if `exact = false`) -/
 def HS.noteKeys (st : St) (hs : HS) (cs : List Nat) : HS :=
@@ -285,8 +290,12 @@ def mergeLeftLoop : Nat → SSt → Nat → SSt
       let sl := rawSlack s.st c
       let hs := q.1.noteCmp sl
       if sl < 0 then
-        let p := mergeLeftStep { s with hs := hs } r c
-        mergeLeftLoop fuel p.1 p.2
+        -- what the heap discipline of the code guarantees (checked here, not proved): `c` enters block `r`
+        -- from another block
+        if internal s.st c || blkOf s.st (s.st.cons[c]!).r != r then { s with hs := hs.bad }
+        else
+          let p := mergeLeftStep { s with hs := hs } r c
+          mergeLeftLoop fuel p.1 p.2
       else { s with hs := hs }
 
 def loopFuel (st : St) : Nat := st.cons.size + st.vars.size + 2
@@ -328,8 +337,10 @@ def mergeRightLoop : Nat → SSt → Nat → SSt
       let sl := rawSlack s.st c
       let hs := q.1.noteCmp sl
       if sl < 0 then
-        let p := mergeRightStep { s with hs := hs } l c
-        mergeRightLoop fuel p.1 p.2
+        if internal s.st c || blkOf s.st (s.st.cons[c]!).l != l then { s with hs := hs.bad }
+        else
+          let p := mergeRightStep { s with hs := hs } l c
+          mergeRightLoop fuel p.1 p.2
       else { s with hs := hs }
 
 /-- `Blocks::mergeRight(l)` -/
@@ -383,7 +394,7 @@ def noteScan (st : St) (hs : HS) : HS :=
 
 def SSt.cleanup (s : SSt) : SSt := { s with st := s.st.cleanup }
 
-def SSt.bad (s : SSt) : Bool := s.hs.fuelOut || s.st.fuelOut
+def SSt.bad (s : SSt) : Bool := s.hs.fuelOut || s.hs.corrupt || s.st.fuelOut
 
 /-- everything of `Solver::satisfy()` before the exit scan -/
 def satisfyCore (s : SSt) : SSt :=
@@ -408,35 +419,52 @@ def HS.newBlocks (hs : HS) : HS :=
   { hs with inH := (hs.inH.push none).push none, outH := (hs.outH.push none).push none,
             bts := (hs.bts.push 0).push 0 }
 
-/-- `Blocks::split(b, l, r, c)` -/
-def splitStatic (s : SSt) (b c : Nat) : SSt :=
+/-- first part of `Blocks::split(b, l, r, c)`: `b->split(l,r,c); m_blocks.push_back(l); m_blocks.push_back(r);
+    r->posn = b->posn;` — returns the state and the new block `l` -/
+def splitPre (s : SSt) (b c : Nat) : SSt × Nat :=
   let oldPosn := (s.st.blocks[b]!).posn
   let q := s.st.split b c
-  let lid := q.2.1
-  let rid := q.2.2
-  let st := setPosn (q.1.insertBlocks lid rid) rid oldPosn          -- `r->posn = b->posn;`
-  let hs := (s.hs.newBlocks.checkExact st lid)
-  let s := mergeLeft { st := st, hs := { hs with nSplit := hs.nSplit + 1 } } lid
-  let r := blkOf s.st (s.st.cons[c]!).r                             -- `r = c->right->block;`
-  let st := s.st.refreshBlock r                                     -- `r->updateWeightedPosition();`
-  let s := mergeRight { st := st, hs := s.hs.checkExact st r } r
-  { s with st := s.st.markDeleted b }                               -- `removeBlock(b);`
+  let st := setPosn (q.1.insertBlocks q.2.1 q.2.2) q.2.2 oldPosn
+  let hs := (s.hs.newBlocks.checkExact st q.2.1)
+  ({ st := st, hs := { hs with nSplit := hs.nSplit + 1 } }, q.2.1)
+
+/-- `r = c->right->block; r->updateWeightedPosition();` — returns the state and `r` -/
+def splitMid (s : SSt) (c : Nat) : SSt × Nat :=
+  let r := blkOf s.st (s.st.cons[c]!).r
+  let st := s.st.refreshBlock r
+  ({ st := st, hs := s.hs.checkExact st r }, r)
+
+/-- `Blocks::split(b, l, r, c)` -/
+def splitStatic (s : SSt) (b c : Nat) : SSt :=
+  let p := splitPre s b c
+  let s1 := mergeLeft p.1 p.2
+  let q := splitMid s1 c
+  let s2 := mergeRight q.1 q.2
+  { s2 with st := s2.st.markDeleted b }                               -- `removeBlock(b);`
 
 /-- the two `for` loops of one round of `Solver::refine`: returns the state and whether a split happened -/
 def refineSetUp (s : SSt) : SSt :=
   { s with hs := s.st.order.toList.foldl (fun hs b => setUpOut s.st (setUpIn s.st hs b) b) s.hs }
 
+/-- the body of the second `for` loop of `Solver::refine` for block `b`:
+    (state, leave the loop?, was a split made?) -/
+def refineTry (s : SSt) (b : Nat) : SSt × Bool × Bool :=
+  let r := s.st.findMinLM b
+  match r.2 with
+  | none => ({ s with st := r.1 }, false, false)
+  | some (ci, lmv, gap) =>
+    let hs := s.hs.note (lmv - LAGRANGIAN_TOLERANCE)
+    if lmv < LAGRANGIAN_TOLERANCE then
+      -- `findMinLM` only follows constraints of its own block (checked here, not proved)
+      if blkOf r.1 (r.1.cons[ci]!).l != b then ({ st := r.1, hs := hs.bad }, true, false)
+      else ((splitStatic { st := r.1, hs := hs.noteCmp gap } b ci).cleanup, true, true)
+    else ({ st := r.1, hs := hs }, false, false)
+
 def refineScan (s : SSt) : List Nat → SSt × Bool
   | [] => (s, false)
   | b :: rest =>
-    let r := s.st.findMinLM b
-    match r.2 with
-    | none => refineScan { s with st := r.1 } rest
-    | some (ci, lmv, gap) =>
-      let hs := s.hs.note (lmv - LAGRANGIAN_TOLERANCE)
-      if lmv < LAGRANGIAN_TOLERANCE then
-        ((splitStatic { st := r.1, hs := hs.noteCmp gap } b ci).cleanup, true)
-      else refineScan { st := r.1, hs := hs } rest
+    let t := refineTry s b
+    if t.2.1 then (t.1, t.2.2) else refineScan t.1 rest
 
 def refineLoop : Nat → SSt → SSt
   | 0, s => s                                    -- `maxtries` exhausted: the code just leaves the loop
